@@ -351,6 +351,8 @@ class Spec:
         if cur == o:
             return False
         self.drop_id(o)
+        if p not in self.d:          # o belonged to an ancestor of p (outside the clean domain)
+            return True
         if cur is None:
             self.d[p][1] = o
             return False
@@ -806,7 +808,7 @@ def run(ctx):
             part = ex_all[i::nchunk]
             if part:
                 jobs.append(("exhaustive", part, small_ups, uos[:2] + [ROOT_ID]))
-        NR = 20000 if quick else 400000
+        NR = 6000 if quick else 120000
         per = 250 if quick else 1000
         for i in range(NR // per):
             jobs.append(("random", ("%s/C19/random/%d" % (ctx.seed, i), per), ups, uos))
